@@ -17,6 +17,8 @@ import time
 from common import (BIN, ToolError, Work, build_harness, cache_get, cache_put, cfg_with, log, seed,
                     sh, tlc, tree_key)
 
+BIG_BUDGET_S = 1500     # per large configuration (thorough tier)
+
 KINDS = {
     "pubsub": {
         "model": "PubSubRouter",
@@ -122,18 +124,26 @@ def pipeline(kind, tier):
     try:
         # 1. exhaustive model checking of Layer A against Layer B (configs run concurrently)
         cfgs = K["model_cfg"][tier]
-        nw = max(2, 16 // max(1, min(len(cfgs), 4)))
+        small = [c for c in cfgs if "thorough" not in c]
+        big = [c for c in cfgs if "thorough" in c]
+        nw = max(2, 16 // max(1, min(len(small), 4)))
         from concurrent.futures import ThreadPoolExecutor
         with ThreadPoolExecutor(max_workers=4) as ex_:
-            rs = list(ex_.map(lambda c: tlc(K["model"], c, work, workers=nw, timeout=7200, xmx="12g", coverage=True), cfgs))
+            rs = list(ex_.map(lambda c: tlc(K["model"], c, work, workers=nw, timeout=7200, xmx="8g", coverage=True), small))
+        # the large configurations run one at a time, each within a time budget: what was visited counts
+        for c in big:
+            rs.append(tlc(K["model"], c, work, workers=12, xmx="20g", coverage=False, budget=BIG_BUDGET_S))
+        cfgs = small + big
         models = []
         for c, r in zip(cfgs, rs):
-            log("[%s] TLC %s/%s: %d distinct states, %d generated, depth %d, %.0fs, ok=%s" % (
-                kind, K["model"], c, r.distinct, r.generated, r.depth, r.wall, r.ok))
+            log("[%s] TLC %s/%s: %d distinct states, %d generated, depth %d, %.0fs, ok=%s%s" % (
+                kind, K["model"], c, r.distinct, r.generated, r.depth, r.wall, r.ok,
+                " (stopped at the time budget: states visited so far)" if getattr(r, "partial", False) else ""))
             cov = r.coverage()
             m = {"module": K["model"], "cfg": c, "states": r.distinct,
                  "transitions": r.generated, "depth": r.depth, "wall_s": round(r.wall, 1),
                  "ok": r.ok, "errors": r.errors[:5], "violated": r.violated,
+                 "complete": not getattr(r, "partial", False),
                  "action_coverage": {a: v[1] for a, v in sorted(cov.items())},
                  "actions_never_taken": sorted(a for a, v in cov.items() if v[1] == 0)}
             if not r.ok:
